@@ -185,6 +185,37 @@ func (ce *ChanEngine) isDoneSource(f *FuncInfo, ch ast.Expr) bool {
 	if r.Var != nil && !r.Elem && ce.ClosedOnly(r.Var) {
 		return true
 	}
+	// a local alias of a done channel: `d := ctx.Done()` (it may later be set to nil to disable the case)
+	if r.Var != nil && !r.Elem && !r.Var.IsField() {
+		defs, done := 0, 0
+		root := f.Root()
+		rin := info(root)
+		ast.Inspect(root.Body, func(m ast.Node) bool {
+			as, ok := m.(*ast.AssignStmt)
+			if !ok || len(as.Lhs) != len(as.Rhs) {
+				return true
+			}
+			for i, l := range as.Lhs {
+				if id, ok := unparen(l).(*ast.Ident); ok && objOf(rin, id) == types.Object(r.Var) {
+					if isNilIdent(as.Rhs[i]) {
+						continue
+					}
+					defs++
+					if isCtxDoneCall(rin, as.Rhs[i]) {
+						done++
+					} else if call, ok := unparen(as.Rhs[i]).(*ast.CallExpr); ok {
+						if fn := callee(rin, call); fn != nil && fn.Name() == "Done" && isMethod(fn, pathTracing, "Done", "ITracer", "tracer") {
+							done++
+						}
+					}
+				}
+			}
+			return true
+		})
+		if defs > 0 && defs == done {
+			return true
+		}
+	}
 	return false
 }
 
